@@ -45,9 +45,11 @@ fn gen_orphans(r: &mut Rng, seed: u64, idx: u64) -> Plan {
     let mode = if r.chance(1, 4) { Mode::Cancel } else { Mode::Detached };
     let n = r.usize_in(2, 4);
     let mut conns = Vec::new();
+    // (a third of these servers have been up for a minute or so)
+    let up = if r.chance(1, 3) { r.range(35_000, 90_000) } else { 0 };
     for i in 0..n {
         let mut c = blank_conn(1700 + i as u16);
-        c.start_ms = r.range(0, 30);
+        c.start_ms = up + r.range(0, 30);
         let w = WorkReq {
             nonce: 1 + i as u64,
             steps: r.range(1, 4) as u32,
@@ -69,7 +71,7 @@ fn gen_orphans(r: &mut Rng, seed: u64, idx: u64) -> Plan {
         server: ServerPlan { mode, body_limit: 1024, api: ApiKind::Work, rt_override: None, tls: false },
         conns,
         shutdown: Some(ShutdownPlan {
-            trigger: CloseTrigger::AtMs(r.range(250, 1_500)),
+            trigger: CloseTrigger::AtMs(up + r.range(250, 1_500)),
             by_drop: false,
             waiters: vec![],
             restart: false,
